@@ -4,7 +4,7 @@ use rand::rngs::StdRng;
 use rand::seq::SliceRandom;
 use rand::Rng;
 
-pub const ODD_CHARS: &[char] = &['٣', '７', '௧', 'é', 'ß', '♔', '\u{0}', '\t', '\n', ' ', '\u{7f}', '€', '𝟙', '½', '\u{202e}', 'K', 'k', 'x', '9', '0', '-', '/', '+'];
+pub const ODD_CHARS: &[char] = &['٣', '７', '௧', 'é', 'ß', '♔', '\u{212A}', '\u{017F}', '\u{0130}', '\u{0131}', 'ｋ', 'Ｋ', 'ｐ', 'к', 'р', '\u{1E9E}', 'ǅ', '\u{0}', '\t', '\n', ' ', '\u{7f}', '€', '𝟙', '½', '\u{202e}', 'K', 'k', 'x', '9', '0', '-', '/', '+'];
 
 pub fn random_utf8(rng: &mut StdRng, max_len: usize) -> String {
     let n = rng.gen_range(0..=max_len);
